@@ -510,6 +510,7 @@ extern "C" void __ubsan_on_report(void) { g_ub = g_ub + 1; }
 // watchdog: a request that does not finish within its budget reports the input it was working on and exits
 #include <csignal>
 #include <unistd.h>
+#include <sys/time.h>
 static volatile unsigned long long g_cur = 0;
 static const char* volatile g_what = "-";
 static char g_partial[160] = "-";      // results already obtained for the current request (no spaces)
@@ -540,11 +541,13 @@ static bool trial_prime(uint64_t f, const std::vector<uint32_t>& sp) {
 }
 int main() {
     static char line[4096];
-    signal(SIGALRM, on_alarm);
+    // the budget is CPU time of this process (ITIMER_PROF), so a saturated machine cannot make a finite request look like a hang
+    signal(SIGPROF, on_alarm);
     const char* budget = getenv("C12_LINE_BUDGET");
     unsigned budget_s = budget ? (unsigned)atoi(budget) : 300u;
     while (fgets(line, sizeof line, stdin)) {
-        alarm(budget_s);
+        { struct itimerval tv; tv.it_interval.tv_sec = 0; tv.it_interval.tv_usec = 0; tv.it_value.tv_sec = budget_s; tv.it_value.tv_usec = 0;
+          setitimer(ITIMER_PROF, &tv, nullptr); }
         g_what = "-"; g_cur = 0; strcpy(g_partial, "-");
         char cmd[16] = {0}; char op[16] = {0}; ull a = 0, b = 0, c = 0, e = 0;
         if (sscanf(line, "%15s", cmd) != 1) { puts("bad"); continue; }
@@ -811,7 +814,7 @@ def run_sharded(exe, lines, shards=16, heavy=lambda l: False, budget=300):
         fail = None
         if res and res[-1].startswith("TIMEOUT"):
             r = kv(res[-1])
-            fail = {"what": f"request `{lines[idx[len(res) - 1]]}` did not finish within {budget} s (working on {r.get('what')} "
+            fail = {"what": f"request `{lines[idx[len(res) - 1]]}` did not finish within {budget} s of CPU time (working on {r.get('what')} "
                             f"input {r.get('current')}; results so far: {r.get('partial')})", "request": lines[idx[len(res) - 1]], "current": r.get("current"),
                     "phase": r.get("what")}
             res = res[:-1]
@@ -1001,7 +1004,7 @@ def mag_probe(wd, cases, compiler, std, tag):
     extra = ["-fconstexpr-ops-limit=400000000", "-fconstexpr-loop-limit=50000000"] if compiler == "g++" else \
             ["-fconstexpr-steps=400000000"]
     try:
-        rc, out = cxx(src, exe, compiler=compiler, std=std, san=False, extra=extra, timeout=420)
+        rc, out = cxx(src, exe, compiler=compiler, std=std, san=False, extra=extra, timeout=2400)
     except Exception as ex:       # subprocess.TimeoutExpired: constant evaluation does not end
         return 124, f"compilation did not finish: {ex}"
     if rc != 0:
